@@ -113,12 +113,20 @@ fn initial_memory(seed: u64) -> Vec<u8> {
 }
 const CALLARGS_LEN: u32 = 16 + 2 + 3 + 2 + 2 + 8;
 
+fn initial_state_of(c: &Ctx) -> Vec<(Vec<u8>, Vec<u8>)> {
+    if c.init {
+        vec![]
+    } else {
+        initial_state()
+    }
+}
+
 fn initial_state() -> Vec<(Vec<u8>, Vec<u8>)> { vec![(vec![0x12], vec![1, 2, 3, 4, 5]), (vec![0x12, 0x34], (10..26).collect()), (vec![0x13], vec![])] }
 
 fn ctx(p: Params) -> Ctx {
     let mut sender = vec![0u8];
     sender.extend_from_slice(&[0x5E; 32]);
-    Ctx { params: p, parameter: vec![9, 8, 7, 6, 5], policy: (100..112).collect(), slot_time: 0x0102_0304_0506, invoker: [0x11; 32], self_address: (77, 3), self_balance: 123_456_789, sender, owner: [0x22; 32], entrypoint: b"run".to_vec() }
+    Ctx { params: p, parameter: vec![9, 8, 7, 6, 5], policy: (100..112).collect(), slot_time: 0x0102_0304_0506, invoker: [0x11; 32], self_address: (77, 3), self_balance: 123_456_789, sender, owner: [0x22; 32], entrypoint: b"run".to_vec(), init: false, init_origin: [0x33; 32] }
 }
 
 /// Compile a script into a v1 contract.
@@ -293,7 +301,32 @@ fn interrupt_text(i: &v1::Interrupt) -> String {
     }
 }
 
+/// The init entrypoint of the same module (`init_c`), on the empty state.
+fn run_real_init(wasm: &[u8], c: &Ctx, budget: u64) -> Result<RealRun, String> {
+    let inst = instantiate_with_metering::<ProcessedImports>(ValidationConfig::V1, CostConfigurationV1, &ConcordiumAllowedImports { support_upgrade: true, enable_debug: false }, wasm).map_err(|e| format!("module rejected: {e:#}"))?;
+    let store: Vec<u8> = vec![];
+    let mut loader = Loader::new(&store[..]);
+    let policy = c.policy.clone();
+    let ictx = v0::InitContext { metadata: ChainMetadata { slot_time: Timestamp::from_timestamp_millis(c.slot_time) }, init_origin: AccountAddress(c.init_origin), sender_policies: &policy[..] };
+    mc_core::set_dirty_limit(2 * MEM);
+    let r = v1::invoke_init::<_, _, DebugTracker>(&inst.artifact, ictx, v1::InitInvocation { amount: Amount::from_micro_ccd(0), init_name: "init_c", parameter: &c.parameter[..], energy: InterpreterEnergy::new(budget) }, c.params.limit, Loader::new(&store[..])).map_err(|e| format!("invalid return code: {e:?}"))?;
+    let trace_of = |t: &DebugTracker| t.host_call_trace.iter().map(|(_, h)| (h.host_function.to_string(), h.energy_used.energy)).collect::<Vec<_>>();
+    Ok(match r {
+        v1::InitResult::Success { logs, return_value, remaining_energy, mut state, trace } => {
+            let frozen = state.freeze(&mut loader, &mut EmptyCollector);
+            let st: Vec<(Vec<u8>, Vec<u8>)> = frozen.into_iterator(&mut loader).collect();
+            RealRun { sections: vec![], outcome: Outcome::Success { rv: return_value, logs: logs.iterate().cloned().collect(), state: st }, remaining: Some(remaining_energy.energy), per_call: trace_of(&trace) }
+        }
+        v1::InitResult::Reject { reason, remaining_energy, trace, .. } => RealRun { sections: vec![], outcome: Outcome::Reject(reason), remaining: Some(remaining_energy.energy), per_call: trace_of(&trace) },
+        v1::InitResult::Trap { remaining_energy, trace, .. } => RealRun { sections: vec![], outcome: Outcome::Trap, remaining: Some(remaining_energy.energy), per_call: trace_of(&trace) },
+        v1::InitResult::OutOfEnergy { trace } => RealRun { sections: vec![], outcome: Outcome::OutOfEnergy, remaining: None, per_call: trace_of(&trace) },
+    })
+}
+
 fn run_real(wasm: &[u8], c: &Ctx, budget: u64, answers: &[Answer]) -> Result<RealRun, String> {
+    if c.init {
+        return run_real_init(wasm, c, budget);
+    }
     let inst = instantiate_with_metering::<ProcessedImports>(ValidationConfig::V1, CostConfigurationV1, &ConcordiumAllowedImports { support_upgrade: true, enable_debug: false }, wasm).map_err(|e| format!("module rejected: {e:#}"))?;
     let artifact: concordium_wasm::artifact::Artifact<ProcessedImports, CompiledFunction> = inst.artifact;
     let init = initial_state();
@@ -401,7 +434,7 @@ fn flat(m: &Model) -> Vec<(Vec<u8>, Vec<u8>)> { m.map.iter().map(|(k, e)| (k.clo
 /// Run the model over `s`, answering interrupts from `answers`. Returns the model, the sections,
 /// the outcomes allowed so far, whether the end of the script was reached, and the per-call costs.
 fn model_run(s: &Script, answers: &[Answer], c: &Ctx, mem0: &[u8]) -> (Model, Vec<(Section, bool)>, Vec<Outcome>, bool, Vec<(F, u128)>) {
-    let mut m = Model::new(c.clone(), mem0.to_vec(), &initial_state());
+    let mut m = Model::new(c.clone(), mem0.to_vec(), &initial_state_of(c));
     let mut results: Vec<u64> = vec![];
     let mut per = vec![];
     let mut allowed = vec![];
@@ -483,6 +516,9 @@ fn check_script_r(report: &Report, script: &Script, answers: &[Answer], c: &Ctx,
         }
         if c.parameter.len() != 5 {
             j["parameter_len"] = json!(c.parameter.len());
+        }
+        if c.init {
+            j["entrypoint"] = json!("init");
         }
         if mem0.len() != MEM {
             j["memory_pages"] = json!(mem0.len() / MEM);
@@ -666,7 +702,7 @@ fn roles(f: F) -> Vec<Role> {
         F::VerifySecp256k1 => vec![Ptr, Ptr, Ptr],
         F::HashSha2 | F::HashSha3 | F::HashKeccak => vec![Ptr, Len, Ptr],
         F::Invoke => vec![Tag, Ptr, Len],
-        F::GetReceiveInvoker | F::GetReceiveSelfAddress | F::GetReceiveSender | F::GetReceiveOwner | F::GetReceiveEntrypoint | F::Upgrade => vec![Ptr],
+        F::GetReceiveInvoker | F::GetReceiveSelfAddress | F::GetReceiveSender | F::GetReceiveOwner | F::GetReceiveEntrypoint | F::Upgrade | F::GetInitOrigin => vec![Ptr],
     }
 }
 
@@ -829,6 +865,46 @@ fn run_engine(cli: &Cli, report: &Report) {
     }
     report.set_extra("single_call_cases", json!(cases.len()));
     cases.par_iter().enumerate().for_each(|(i, (p, s))| check_script(report, s, &ctx(*p), &mem0, !quick || i % 16 == 0));
+    // ---- layer 1b: the init entrypoint (empty state; the prefix creates what it refers to) -----
+    let prefix_init: Script = vec![
+        Call { f: F::StateCreateEntry, args: vec![Arg::C(KEYS as u64), Arg::C(1)] },
+        Call { f: F::StateCreateEntry, args: vec![Arg::C(KEYS as u64), Arg::C(2)] },
+        Call { f: F::StateIteratePrefix, args: vec![Arg::C(KEYS as u64), Arg::C(1)] },
+    ];
+    let mut init_cases: Vec<(Params, Script)> = vec![];
+    for f in ALL {
+        let lists = arg_lists(f, true);
+        let stride = if quick { lists.len().div_ceil(8_000).max(1) } else { 1 };
+        for (i, args) in lists.into_iter().enumerate() {
+            if i % stride != 0 {
+                continue;
+            }
+            for p in [P4, P7] {
+                if p != P4 && !matches!(f, F::LogEvent | F::WriteOutput) {
+                    continue;
+                }
+                let mut s = prefix_init.clone();
+                s.push(Call { f, args: args.clone() });
+                init_cases.push((p, s));
+            }
+        }
+    }
+    for p in [P4, P7] {
+        let cc = |f: F, a: &[u64]| Call { f, args: a.iter().map(|x| Arg::C(*x)).collect() };
+        for n in [63usize, 64, 65] {
+            init_cases.push((p, (0..n).map(|i| cc(F::LogEvent, &[SRC as u64, (i % 7) as u64])).collect()));
+        }
+        for (len, off) in [(0x4000u64, 0x4000u64), (2, 0x3fff), (2, 0x4000)] {
+            init_cases.push((p, vec![cc(F::WriteOutput, &[0, 0x4000, 0]), cc(F::WriteOutput, &[SRC as u64, len, off])]));
+        }
+        init_cases.push((p, vec![cc(F::StateCreateEntry, &[KEYS as u64 + 3, 1]), Call { f: F::StateEntryWrite, args: vec![Arg::Res(0), Arg::C(SRC as u64), Arg::C(8), Arg::C(0)] }, cc(F::GetInitOrigin, &[SCRATCH as u64]), cc(F::GetParameterSize, &[0]), cc(F::GetParameterSection, &[0, SCRATCH as u64 + 64, 5, 0])]));
+    }
+    report.set_extra("init_cases", json!(init_cases.len()));
+    init_cases.par_iter().enumerate().for_each(|(i, (p, s))| {
+        let mut cx = ctx(*p);
+        cx.init = true;
+        check_script(report, s, &cx, &mem0, i % 16 == 0)
+    });
     // ---- layer 2: contexts that single calls do not reach ------------------------------------
     let mut special: Vec<(Params, Script)> = vec![];
     let c = |f: F, a: &[u64]| Call { f, args: a.iter().map(|x| Arg::C(*x)).collect() };
